@@ -38,4 +38,91 @@ def DataFrame_parse_rows_from_boolean (truth : Term → Bool) (len_rows : Int) (
   else
     Out.ret [] (Term.app "Vector.fast" [(Term.app "getitem" [(Term.app "np.nonzero" [rows']), (Term.int (0 : Int))]), (Term.sym "int")])
 
+/-- dataiter/data_frame.py: DataFrame.filter (sha256 of the function source: c45f431825ecd074) -/
+def DataFrame_filter (truth : Term → Bool) (rows_is_None : Bool) : Out :=
+  if (!rows_is_None) then
+    if truth (Term.app "callable" [(Term.sym "rows")]) then
+      let rows' : Term := (Term.app "rows" [(Term.sym "self")]);
+      let rows' : Term := (Term.app "._parse_rows_from_boolean" [(Term.sym "self"), rows']);
+      let eff0 : Term := (Term.app "for" [(Term.app "tuple" [(Term.sym "colname"), (Term.sym "column")]), (Term.app ".items" [(Term.sym "self")]), (Term.app "block" [(Term.app "yield" [(Term.app "tuple" [(Term.sym "colname"), (Term.app "np.take" [(Term.sym "column"), rows'])])])])]);
+      Out.fall [eff0]
+    else
+      let rows' : Term := (Term.app "._parse_rows_from_boolean" [(Term.sym "self"), (Term.sym "rows")]);
+      let eff0 : Term := (Term.app "for" [(Term.app "tuple" [(Term.sym "colname"), (Term.sym "column")]), (Term.app ".items" [(Term.sym "self")]), (Term.app "block" [(Term.app "yield" [(Term.app "tuple" [(Term.sym "colname"), (Term.app "np.take" [(Term.sym "column"), rows'])])])])]);
+      Out.fall [eff0]
+  else
+    if truth (Term.sym "colname_value_pairs") then
+      let rows' : Term := (Term.app "Vector.fast([True], bool).repeat" [(Term.app ".nrow" [(Term.sym "self")])]);
+      let eff0 : Term := (Term.app "for" [(Term.app "tuple" [(Term.sym "colname"), (Term.sym "value")]), (Term.app ".items" [(Term.sym "colname_value_pairs")]), (Term.app "block" [(Term.app "assign" [(Term.sym "rows"), (Term.app "BitAnd" [(Term.sym "rows"), (Term.app "Eq" [(Term.app "getitem" [(Term.sym "self"), (Term.sym "colname")]), (Term.sym "value")])])])]), (Term.app "init" [(Term.sym "rows"), rows'])]);
+      let rows' : Term := (Term.app "value-after-loop" [(Term.sym "rows"), eff0]);
+      let rows' : Term := (Term.app "._parse_rows_from_boolean" [(Term.sym "self"), rows']);
+      let eff1 : Term := (Term.app "for" [(Term.app "tuple" [(Term.sym "colname"), (Term.sym "column")]), (Term.app ".items" [(Term.sym "self")]), (Term.app "block" [(Term.app "yield" [(Term.app "tuple" [(Term.sym "colname"), (Term.app "np.take" [(Term.sym "column"), rows'])])])])]);
+      Out.fall [eff0, eff1]
+    else
+      let rows' : Term := (Term.app "._parse_rows_from_boolean" [(Term.sym "self"), (Term.sym "rows")]);
+      let eff0 : Term := (Term.app "for" [(Term.app "tuple" [(Term.sym "colname"), (Term.sym "column")]), (Term.app ".items" [(Term.sym "self")]), (Term.app "block" [(Term.app "yield" [(Term.app "tuple" [(Term.sym "colname"), (Term.app "np.take" [(Term.sym "column"), rows'])])])])]);
+      Out.fall [eff0]
+
+/-- dataiter/data_frame.py: DataFrame.filter_out (sha256 of the function source: e11629f5d098ab96) -/
+def DataFrame_filter_out (truth : Term → Bool) (rows_is_None : Bool) : Out :=
+  if (!rows_is_None) then
+    if truth (Term.app "callable" [(Term.sym "rows")]) then
+      let rows' : Term := (Term.app "rows" [(Term.sym "self")]);
+      let rows' : Term := (Term.app "._parse_rows_from_boolean" [(Term.sym "self"), rows']);
+      let eff0 : Term := (Term.app "for" [(Term.app "tuple" [(Term.sym "colname"), (Term.sym "column")]), (Term.app ".items" [(Term.sym "self")]), (Term.app "block" [(Term.app "yield" [(Term.app "tuple" [(Term.sym "colname"), (Term.app "np.delete" [(Term.sym "column"), rows'])])])])]);
+      Out.fall [eff0]
+    else
+      let rows' : Term := (Term.app "._parse_rows_from_boolean" [(Term.sym "self"), (Term.sym "rows")]);
+      let eff0 : Term := (Term.app "for" [(Term.app "tuple" [(Term.sym "colname"), (Term.sym "column")]), (Term.app ".items" [(Term.sym "self")]), (Term.app "block" [(Term.app "yield" [(Term.app "tuple" [(Term.sym "colname"), (Term.app "np.delete" [(Term.sym "column"), rows'])])])])]);
+      Out.fall [eff0]
+  else
+    if truth (Term.sym "colname_value_pairs") then
+      let rows' : Term := (Term.app "Vector.fast([True], bool).repeat" [(Term.app ".nrow" [(Term.sym "self")])]);
+      let eff0 : Term := (Term.app "for" [(Term.app "tuple" [(Term.sym "colname"), (Term.sym "value")]), (Term.app ".items" [(Term.sym "colname_value_pairs")]), (Term.app "block" [(Term.app "assign" [(Term.sym "rows"), (Term.app "BitAnd" [(Term.sym "rows"), (Term.app "Eq" [(Term.app "getitem" [(Term.sym "self"), (Term.sym "colname")]), (Term.sym "value")])])])]), (Term.app "init" [(Term.sym "rows"), rows'])]);
+      let rows' : Term := (Term.app "value-after-loop" [(Term.sym "rows"), eff0]);
+      let rows' : Term := (Term.app "._parse_rows_from_boolean" [(Term.sym "self"), rows']);
+      let eff1 : Term := (Term.app "for" [(Term.app "tuple" [(Term.sym "colname"), (Term.sym "column")]), (Term.app ".items" [(Term.sym "self")]), (Term.app "block" [(Term.app "yield" [(Term.app "tuple" [(Term.sym "colname"), (Term.app "np.delete" [(Term.sym "column"), rows'])])])])]);
+      Out.fall [eff0, eff1]
+    else
+      let rows' : Term := (Term.app "._parse_rows_from_boolean" [(Term.sym "self"), (Term.sym "rows")]);
+      let eff0 : Term := (Term.app "for" [(Term.app "tuple" [(Term.sym "colname"), (Term.sym "column")]), (Term.app ".items" [(Term.sym "self")]), (Term.app "block" [(Term.app "yield" [(Term.app "tuple" [(Term.sym "colname"), (Term.app "np.delete" [(Term.sym "column"), rows'])])])])]);
+      Out.fall [eff0]
+
+/-- dataiter/data_frame.py: DataFrame.slice (sha256 of the function source: 511154c3813eb735) -/
+def DataFrame_slice (truth : Term → Bool) (rows_is_None : Bool) (cols_is_None : Bool) : Out :=
+  let rows' : Term := (if rows_is_None then (Term.app "np.arange" [(Term.app ".nrow" [(Term.sym "self")])]) else (Term.sym "rows"));
+  let cols' : Term := (if cols_is_None then (Term.app "np.arange" [(Term.app ".ncol" [(Term.sym "self")])]) else (Term.sym "cols"));
+  let rows' : Term := (Term.app "._parse_rows_from_integer" [(Term.sym "self"), rows']);
+  let cols' : Term := (Term.app "._parse_cols_from_integer" [(Term.sym "self"), cols']);
+  let eff0 : Term := (Term.app "for" [(Term.sym "colname"), (Term.app "GeneratorExp" [(Term.app "getitem" [(Term.app ".colnames" [(Term.sym "self")]), (Term.sym "x")]), (Term.app "in" [(Term.sym "x"), cols', (Term.app "if" [])])]), (Term.app "block" [(Term.app "yield" [(Term.app "tuple" [(Term.sym "colname"), (Term.app ".copy" [(Term.app "getitem" [(Term.app "getitem" [(Term.sym "self"), (Term.sym "colname")]), rows'])])])])])]);
+  Out.fall [eff0]
+
+/-- dataiter/data_frame.py: DataFrame.slice_off (sha256 of the function source: f6a15670316a4411) -/
+def DataFrame_slice_off (truth : Term → Bool) (rows_is_None : Bool) (cols_is_None : Bool) : Out :=
+  let rows' : Term := (if rows_is_None then (Term.app "list" []) else (Term.sym "rows"));
+  let cols' : Term := (if cols_is_None then (Term.app "list" []) else (Term.sym "cols"));
+  let rows' : Term := (Term.app "._parse_rows_from_integer" [(Term.sym "self"), rows']);
+  let cols' : Term := (Term.app "._parse_cols_from_integer" [(Term.sym "self"), cols']);
+  let eff0 : Term := (Term.app "for" [(Term.app "tuple" [(Term.sym "i"), (Term.sym "colname")]), (Term.app "enumerate" [(Term.app ".colnames" [(Term.sym "self")])]), (Term.app "block" [(Term.app "if" [(Term.app "In" [(Term.sym "i"), cols']), (Term.app "block" [(Term.sym "continue")]), (Term.app "block" [])]), (Term.app "yield" [(Term.app "tuple" [(Term.sym "colname"), (Term.app "np.delete" [(Term.app "getitem" [(Term.sym "self"), (Term.sym "colname")]), rows'])])])])]);
+  Out.fall [eff0]
+
+/-- dataiter/data_frame.py: DataFrame.drop_na (sha256 of the function source: 16b3ee3bca8991c0) -/
+def DataFrame_drop_na (truth : Term → Bool) : Out :=
+  let drop' : Term := (Term.app "Vector.fast([False], bool).repeat" [(Term.app ".nrow" [(Term.sym "self")])]);
+  let eff0 : Term := (Term.app "for" [(Term.sym "colname"), (Term.sym "colnames"), (Term.app "block" [(Term.app "assign" [(Term.sym "drop"), (Term.app "BitOr" [(Term.sym "drop"), (Term.app ".is_na" [(Term.app "getitem" [(Term.sym "self"), (Term.sym "colname")])])])])]), (Term.app "init" [(Term.sym "drop"), drop'])]);
+  let drop' : Term := (Term.app "value-after-loop" [(Term.sym "drop"), eff0]);
+  Out.ret [eff0] (Term.app ".filter_out" [(Term.sym "self"), drop'])
+
+/-- dataiter/data_frame.py: DataFrame.unique (sha256 of the function source: 6a3c24bcd387b834) -/
+def DataFrame_unique (truth : Term → Bool) : Out :=
+  let colnames' : Term := (Term.app "Or" [(Term.sym "colnames"), (Term.app ".colnames" [(Term.sym "self")])]);
+  let columns' : Term := (Term.app "ListComp" [(Term.app "getitem" [(Term.sym "self"), (Term.sym "x")]), (Term.app "in" [(Term.sym "x"), colnames', (Term.app "if" [])])]);
+  let eff0 : Term := (Term.app "for" [(Term.app "tuple" [(Term.sym "i"), (Term.sym "column")]), (Term.app "enumerate" [columns']), (Term.app "block" [(Term.app "if" [(Term.app "Or" [(Term.app ".is_datetime" [(Term.sym "column")]), (Term.app ".is_float" [(Term.sym "column")]), (Term.app ".is_timedelta" [(Term.sym "column")])]), (Term.app "block" [(Term.app "store" [(Term.app "getitem" [columns', (Term.sym "i")]), (Term.app "np.where" [(Term.app ".is_na" [(Term.sym "column")]), (Term.sym "None"), (Term.sym "column")])])]), (Term.app "block" [])])])]);
+  let rows' : Term := (Term.app "list" [(Term.app "zip" [(Term.app "*" [columns'])])]);
+  let seen' : Term := (Term.app "set" []);
+  let keep' : Term := (Term.app "list" []);
+  let eff1 : Term := (Term.app "for" [(Term.sym "i"), (Term.app "range" [(Term.app ".nrow" [(Term.sym "self")])]), (Term.app "block" [(Term.app "if" [(Term.app "NotIn" [(Term.app "getitem" [rows', (Term.sym "i")]), seen']), (Term.app "block" [(Term.app ".add" [seen', (Term.app "getitem" [rows', (Term.sym "i")])]), (Term.app ".append" [keep', (Term.sym "i")])]), (Term.app "block" [])])])]);
+  let eff2 : Term := (Term.app "for" [(Term.app "tuple" [(Term.sym "colname"), (Term.sym "column")]), (Term.app ".items" [(Term.sym "self")]), (Term.app "block" [(Term.app "yield" [(Term.app "tuple" [(Term.sym "colname"), (Term.app ".copy" [(Term.app "getitem" [(Term.sym "column"), keep'])])])])])]);
+  Out.fall [eff0, eff1, eff2]
+
 end DI.Gen
